@@ -136,6 +136,19 @@ fn decode_parts(data: &[u8], raw: bool) -> Result<DecodedParts, DataDecodingErro
     })
 }
 
+#[cfg(feature = "verif_hooks")]
+pub(crate) fn verif_decode_parts(
+    data: &[u8],
+    raw: bool,
+) -> Result<crate::verif::RawParts, DataDecodingError> {
+    let parts = decode_parts(data, raw)?;
+    Ok(crate::verif::RawParts {
+        output: parts.output,
+        eci_spans: parts.eci_spans,
+        fnc1: parts.fnc1,
+    })
+}
+
 /// Decode the data codewords of a Data Matrix as a string.
 ///
 /// This function has some ECI support. Be aware that
